@@ -200,12 +200,21 @@ func TestVerifCodecEngine(t *testing.T) {
 			enc("m1", rc.MarshalMerkleBinary)
 			enc("m2", rc.MarshalMerkleBinaryV2)
 			tail := []byte{0xde, 0xad, 0xbe}
-			dec := func(key string, data []byte, f func(r *Receipt, d []byte) ([]byte, error)) {
+			dec := func(key string, data []byte, body func(r *Receipt, d []byte) ([]byte, uint32), f func(r *Receipt, d []byte) ([]byte, error)) {
 				if data == nil {
 					return
 				}
 				guarded(o, key, func() {
 					var r Receipt
+					// the decoders allocate make([]*Event, evCount) before reading any event: a garbage
+					// count (ill-formed input) would allocate gigabytes, so the count is read first
+					// through the package's own body decoder and absurd counts are reported, not run.
+					var probe Receipt
+					_, evCount := body(&probe, exact(append(append([]byte{}, data...), tail...)))
+					if evCount > 4096 {
+						o[key+"_hugecount"] = evCount
+						return
+					}
 					rest, err := f(&r, exact(append(append([]byte{}, data...), tail...)))
 					if err != nil {
 						o[key+"_err"] = err.Error()
@@ -215,8 +224,8 @@ func TestVerifCodecEngine(t *testing.T) {
 					o[key+"_rest_ok"] = bytes.Equal(rest, tail)
 				})
 			}
-			dec("d1", s1, (*Receipt).unmarshalStoreBinary)
-			dec("d2", s2, (*Receipt).unmarshalStoreBinaryV2)
+			dec("d1", s1, (*Receipt).unmarshalBody, (*Receipt).unmarshalStoreBinary)
+			dec("d2", s2, (*Receipt).unmarshalBodyV2, (*Receipt).unmarshalStoreBinaryV2)
 			// the version mix-up F17 is about: what a V2-era receipt looks like after a V1 store round trip
 			o["h1"] = hx((&ReceiptMerkle{rc, 0, DummyBlockVersionner(c.Ver)}).GetHash())
 		case "RS": // receipt list of a block at fork version Ver, with or without bloom
